@@ -260,6 +260,19 @@ def quiet_env() -> None:
     os.environ.setdefault("CUDA_VISIBLE_DEVICES", "-1")
     os.environ.setdefault("PYTHONHASHSEED", "0")
     os.environ.setdefault("TF_ENABLE_ONEDNN_OPTS", "0")
+    os.environ.setdefault("TQDM_DISABLE", "1")
+
+
+def _silence_tqdm() -> None:
+    """check() draws progress bars from worker processes: noise only."""
+    import sedpack.io.dataset_writing as dw
+    real = dw.tqdm
+
+    def quiet(it, *a, **kw):
+        kw["disable"] = True
+        return real(it, *a, **kw)
+
+    dw.tqdm = quiet
 
 
 def _worker_init(paths: list[str]) -> None:
@@ -274,6 +287,7 @@ def _worker_init(paths: list[str]) -> None:
         os.dup2(devnull, 2)
         try:
             import sedpack.io  # noqa: F401  pylint: disable=unused-import
+            _silence_tqdm()
         finally:
             os.dup2(saved, 2)
             os.close(devnull)
@@ -304,6 +318,7 @@ def import_sedpack_quietly():
     os.dup2(devnull, 2)
     try:
         import sedpack.io  # noqa: F401
+        _silence_tqdm()
     finally:
         os.dup2(saved, 2)
         os.close(devnull)
